@@ -197,11 +197,24 @@ def strategy(tier):
         n_isa = draw(st.sampled_from([1, 1, 2, 3]))
         vals = st.sampled_from(['A', 'X1', '100', 'NAME', '12.5', 'HC', ''])
 
+        prev = {}
+
         def trailer(kind, count, ctl, last):
+            try:
+                return trailer1(kind, count, ctl, last)
+            finally:
+                prev[kind] = (count, ctl)
+
+        def trailer1(kind, count, ctl, last):
             # a trailer may only be omitted when an enclosing trailer or Close() follows (well-nested history)
             p = draw(st.integers(0, 5 if last else 3))
             if p <= 2:
                 return ['%s*%d*%s~' % (kind, count, ctl)]
+            if p == 3 and kind in prev and draw(st.integers(0, 2)) == 0:
+                # the preceding sibling's trailer written again (stale id, and a count that was true there)
+                classes.add('wrong-trailer')
+                classes.add('stale-trailer')
+                return ['%s*%d*%s~' % ((kind,) + prev[kind])]
             if p == 3:
                 classes.add('wrong-trailer')
                 return ['%s*%s*%s~' % (kind, draw(st.sampled_from([str(count + 1), '0', 'X', '999'])),
